@@ -55,7 +55,7 @@ func init() {
 			"global match/replace calls where ES5.1 15.5.4.10 step 8.f (previousLastIndex) and the ES3/ES2015 reading (advance after an empty match) differ are not compared (counted in notes as es5-8f-ambiguous)",
 			"$n / $nn with n greater than the number of captures is implementation-defined (15.5.4.11 Table 22): result not compared",
 			"texts outside the ES5.1 grammar but inside the de-facto web-compatibility grammar (ES2015 B.1.4) may either throw SyntaxError or match as that grammar says (ES5.1 clause 16 permits extending pattern syntax)",
-			"matcher step budget 200000 per [[Match]] call; exceeded = inconclusive for that case",
+			"matcher step budget 2000000 per [[Match]] call; exceeded = inconclusive for that case",
 		},
 		Floor: func(tier string) int {
 			if tier == "thorough" {
@@ -69,8 +69,10 @@ func init() {
 			}
 			return len(directedCases()) + 7600
 		},
-		Exec:   func(c *run.Ctx, i int) { checkOne(c, generate(c.Rng, i, c.Thorough())) },
-		Replay: func(c *run.Ctx, raw json.RawMessage) { var in Input; mustUnmarshal(raw, &in); checkOne(c, in) },
+		// generous: the machine may be heavily shared; a genuine hang is still caught
+		CaseTimeoutS: 900,
+		Exec:         func(c *run.Ctx, i int) { checkOne(c, generate(c.Rng, i, c.Thorough())) },
+		Replay:       func(c *run.Ctx, raw json.RawMessage) { var in Input; mustUnmarshal(raw, &in); checkOne(c, in) },
 	})
 	registerMatchers()
 }
@@ -663,6 +665,14 @@ func spanOf(r string) string {
 	return r
 }
 
+// indexOf extracts "null" or "@index" from a rendered exec result.
+func indexOf(r string) string {
+	if i := strings.Index(r, "["); i >= 0 && strings.HasPrefix(r, "@") {
+		return r[:i]
+	}
+	return r
+}
+
 // quotedEnd returns the index just after the quoted string r starts with.
 func quotedEnd(r string) int {
 	for j := 1; j < len(r); j++ {
@@ -701,6 +711,9 @@ func compareExec(c *run.Ctx, in Input, re *refre.Regexp, subs, results, lis []st
 		}
 		reported++
 		switch {
+		case indexOf(exp) != indexOf(act):
+			// whether and where the leftmost match starts
+			c.Fail("mismatch", sitePrefix+"exec:index", single(in, s), exp, act, "")
 		case spanOf(exp) != spanOf(act):
 			c.Fail("mismatch", sitePrefix+"exec:span", single(in, s), exp, act, "")
 		case exp != act:
